@@ -168,8 +168,12 @@ class G(object):
         return ['not', self.e_bool(d - 1)]
 
     def e_list(self, d=1):
-        if self.rng.random() < 0.3:
+        r = self.rng.random()
+        if r < 0.25:
             return ['split', self.e_str(0), self.rng.choice([',', '|', ' ', 'b'])]
+        if r < 0.45 and d > 0:
+            # a list that is empty for some records and not for others
+            return ['cond', self.e_bool(1), self.e_list(0), ['list', []]] if self.rng.random() < 0.5 else ['cond', self.e_bool(1), ['list', []], self.e_list(0)]
         n = self.rng.choice([0, 1, 2, 2, 3])
         return ['list', [self.e_str(d) if self.rng.random() < 0.6 else self.e_int(d) for _ in range(n)]]
 
